@@ -222,6 +222,15 @@ def integrate_to_event(f, g, x0, y0, xmax, rtol=1e-10, h0=1e-3, maxsteps=200000,
     raise RuntimeError("oracle: too many steps")
 
 
+def xi_rhs(th, xi, v, T):
+    """(dv/dxi, dT/dxi) of the self-similar flow in the symmetric phase -- the xi form of the
+    conservation laws (Lib/HydroShock.v: xi_laws; certified against 1/dxi_dv, dT_dv/dxi_dv)"""
+    g2 = 1.0 / (1.0 - v * v)
+    m = mu(xi, v)
+    dv = 2.0 * v / xi / (g2 * (1.0 - v * xi) * (m * m / float(th.csqHighT(T)) - 1.0))
+    return dv, T * g2 * m * dv
+
+
 def shock_profile(th, vw, vp, Tp, rtol=1e-10):
     """flow ahead of the wall written in xi, from the wall to the front
     mu(xi, v) xi = cs^2(T) (local T).  State (v, T, I) with I the kappa quadrature
@@ -230,10 +239,8 @@ def shock_profile(th, vw, vp, Tp, rtol=1e-10):
 
     def rhs(xi, y):
         v, T = y[0], y[1]
-        g2 = 1.0 / (1.0 - v * v)
-        m = mu(xi, v)
-        dv = 2.0 * v / xi / (g2 * (1.0 - v * xi) * (m * m / float(th.csqHighT(T)) - 1.0))
-        return [dv, T * g2 * m * dv, xi * xi * v * v * g2 * float(th.wHighT(T))]
+        dv, dT = xi_rhs(th, xi, v, T)
+        return [dv, dT, xi * xi * v * v / (1.0 - v * v) * float(th.wHighT(T))]
 
     def front(xi, y):
         # for vanishing shocks v -> 0 and the front is approached asymptotically: stop when
@@ -441,7 +448,7 @@ Local Open Scope R_scope.
 Ltac ev := cbv beta iota zeta delta [shockDE shock shock_kappa TiiShock kappaSW_integrand
   kappaSW_enthalpy kappaSW_of kappaRW_integrand kappaRW_enthalpy kappaRW_of gammaSq
   boostVelocity fst snd csqHighT csqLowT wHighT wLowT pHighT pLowT eHighT eLowT alN Tnucl
-  mu gam2 %(envs)s]; interval with (i_prec 90).
+  mu gam2 dxi_dv dT_dv %(envs)s]; interval with (i_prec 90).
 """
 
 
@@ -479,6 +486,18 @@ def correspondence(ctx, proved):
                         got[i]), dict(fn="shockDE", spec=spec, v=v, xi=xi, T=T, wave=wave,
                                       got=float(got[i]))))
                     ctx.count("certified_shockDE")
+        # (1b) the right-hand side integrated by the ORACLE is the xi form proved equivalent
+        for _ in range(ctx.n(2, 8)):
+            xi = rng.uniform(0.35, 0.9)
+            v = rng.uniform(0.02, xi * 0.9)
+            T = Tn * rng.uniform(0.8, 1.6)
+            dv, dT = xi_rhs(th, xi, v, T)
+            X = "dxi_dv (csqHighT %s %s) %s %s" % (ename, q(T), q(xi), q(v))
+            goals.append((close_goal("1 / %s" % X, dv), dict(fn="oracle_rhs_dv", spec=spec,
+                                                            xi=xi, v=v, T=T)))
+            goals.append((close_goal("dT_dv %s %s %s / %s" % (q(T), q(xi), q(v), X), dT),
+                          dict(fn="oracle_rhs_dT", spec=spec, xi=xi, v=v, T=T)))
+            ctx.count("certified_oracle_rhs")
         # (2) closures of solveHydroShock on the three branches
         vJ = hy.vJ
         trip = []
